@@ -1,5 +1,5 @@
 """C19 - 64-bit integers survive untouched (number-as-string exactness: not applicable, see DESIGN)"""
-from ..scen_parser import tokenizer
+from ..scen_parser import tokenizer, selfcheck
 
 DIG = [ord(c) for c in '0123456789']
 NZ = [ord(c) for c in '123456789']
@@ -7,6 +7,7 @@ TERM = [0x20, 0x0a, ord(','), ord(']'), ord('}')]
 
 
 def run(ctx):
+    selfcheck(ctx)
     lens = [1, 2, 10, 18, 19, 20] if ctx.quick else list(range(1, 22))
     multi = []
     for L in lens:
